@@ -366,7 +366,11 @@ class _FileListCacher:
                 self.files.add(child)
 
     def _changed(self, resource):
-        if resource.is_folder():
+        # Writing to a file that is not listed brings it (back) into
+        # existence, e.g. undoing a change of an externally removed file.
+        if resource.is_folder() or (
+            self.files is not None and resource not in self.files
+        ):
             self.files = None
 
     def _invalid(self, resource, new_resource=None):
